@@ -10,6 +10,9 @@ TRUST = ("rustc 1.95.0 and its diagnostics, the std derives, the hand-written dx
 
 # id -> (technique, level text, design ref, level note)
 CHECKS = {
+    "C20": ("compile pipeline as the monitored execution: programs of all generators + a crossing grammar compiled under #![deny(warnings)], rustc diagnostics mapped to cases, controls for user-written pieces",
+            "Held on every program of the run that derive_ex accepted without an error of its own.",
+            "DESIGN.md §4 C20", "rustc diagnostics (JSON) with expansion attribution are the observation channel; lints the std derive also draws are measured and allowed; " + TRUST),
     "C13": ("metamorphic execution: base programs vs consistently renamed / prelude-shadowed / no_std variants compiled with the real proc-macro; verdicts and event logs compared",
             "Held on every (base, transformed) pair of the run, including a systematic sweep of every dictionary name in every role over "
             "hand-picked rich base programs; the dictionary is harvested from the real expander's output at run time.",
@@ -76,6 +79,7 @@ CHECKS = {
 }
 ALL = [f"C{i:02d}" for i in range(1, 21)]
 NOT_YET = {p: "check not built yet in this revision of /verif (planned, see DESIGN.md §4)" for p in ALL if p not in CHECKS}
+assert not NOT_YET
 
 
 def main():
